@@ -117,6 +117,9 @@ func c15DocxTable(el *c15El) string {
 		}
 		for c := 0; c < el.Nc; c++ {
 			s := el.Src[r][c]
+			if s.Absent {
+				continue // a short row: fewer w:tc than grid columns
+			}
 			if s.Covered {
 				// a vertically merged region continues with one (possibly spanning) cell per row
 				ar, ac, span := c15AnchorOf(el, r, c)
@@ -312,6 +315,9 @@ func c15OdtTable(el *c15El, n int) string {
 		b.WriteString(`<table:table-row>`)
 		for c := 0; c < el.Nc; c++ {
 			s := el.Src[r][c]
+			if s.Absent {
+				continue // a short row
+			}
 			if s.Covered {
 				b.WriteString(`<table:covered-table-cell/>`)
 				continue
@@ -410,8 +416,8 @@ func c15ColName(c int) string { return string(rune('A' + c)) }
 // a sheet has no empty border rows/columns (a spreadsheet has no notion of them) and
 // the text of covered cells does not exist
 func c15XlsxExpressible(el *c15El) bool {
-	if c15Degenerate(el) {
-		return false
+	if c15Degenerate(el) || el.Ragged {
+		return false // (a sheet has no short rows: a missing cell is an empty cell)
 	}
 	if el.Hm != "none" && el.Hm != "first" && el.Hm != "" {
 		return false // a sheet has no header marking: the other markings would repeat the same file
@@ -542,8 +548,8 @@ func c15Pptx(c *c15Case, perSlide bool) (string, map[int]bool, error) {
 				`<p:txBody><a:bodyPr/><a:lstStyle/><a:p><a:pPr><a:buNone/></a:pPr><a:r><a:rPr lang="en-US"/><a:t>%s</a:t></a:r></a:p></p:txBody></p:sp>`, id, id, c15X(el.W))
 			id++
 		case "table":
-			if c15Degenerate(el) {
-				continue
+			if c15Degenerate(el) || el.Ragged {
+				continue // (every a:tr has one a:tc per grid column)
 			}
 			if el.Hm != "none" && el.Hm != "first" && el.Hm != "" {
 				continue // PresentationML marks at most the first row (firstRow)
